@@ -199,11 +199,11 @@ def run_stream(spec, workdir, idx, harness, driver="driver"):
         with open(sp, "w") as f:
             f.write(spec["script"])
         cmd = [harness, "script", sp] if spec["kind"] == "script" else [harness, "wire", "-script", sp]
-    elif spec["kind"] == "sock":
+    elif spec["kind"] in ("sock", "srvconc"):
         server, sout = build_server()
         if server is None:
             return dict(spec=spec, lines=lines, verd=None, error="server binary does not build: " + sout[-1500:])
-        cmd = [harness, "sock", "-bin", server] + [str(a) for a in spec["args"]]
+        cmd = [harness, spec["kind"], "-bin", server] + [str(a) for a in spec["args"]]
     else:
         cmd = [harness, spec["kind"]] + [str(a) for a in spec["args"]]
     try:
